@@ -2,7 +2,7 @@
    real manager's registry are recording proxies, so each observed step tells which engine
    calls the manager made (table, method, arguments), what the engine returned and what the
    manager returned. *)
-From Coq Require Import List String Bool Arith.
+From Coq Require Import List String Bool Arith ZArith.
 Import ListNotations.
 From PT Require Import Model.Manager.
 Open Scope string_scope.
@@ -14,7 +14,10 @@ Record step := {
   st_notfound : bool;                                (* manager returned ErrManagerTableNotFound *)
   st_mgr_err : bool; st_mgr_res : string;
   st_eng_err : bool; st_eng_res : string;
-  st_present : bool                                  (* registry holds the id after the call *)
+  st_present : bool;                                 (* registry holds the id after the call *)
+  st_gen_pre : Z; st_gen_post : Z;                   (* which engine is registered under the id before/after:
+                                                        its generation number, -1 none, -2 a foreign engine *)
+  st_new_gen : nat                                   (* CreateTable: generation of the engine being created *)
 }.
 
 Fixpoint strs_eqb (a b : list string) : bool :=
@@ -40,13 +43,30 @@ Fixpoint calls_eqb (a b : list (string * string * list string)) : bool :=
                  arguments; the manager returns what the engine returned; the registry keeps
                  the table unless the call was a successful close/release;
    unknown id -> no engine call at all, table-not-found, registry unchanged. *)
+(* the three methods that do not forward *)
+Definition C17_special_ok (s : step) : option bool :=
+  if String.eqb (st_method s) "CreateTable" then
+    (* success registers exactly the new engine under the id; a refused creation leaves the
+       registry entry for that id exactly as it was (absent stays absent) *)
+    Some (calls_eqb (st_calls s) []
+          && (if st_mgr_err s then Z.eqb (st_gen_post s) (st_gen_pre s)
+              else Z.eqb (st_gen_post s) (Z.of_nat (st_new_gen s))))
+  else if String.eqb (st_method s) "Reset" then
+    Some (calls_eqb (st_calls s) [] && Z.eqb (st_gen_post s) (-1))
+  else if String.eqb (st_method s) "GetTableEngine" then
+    Some (calls_eqb (st_calls s) [] && Z.eqb (st_gen_post s) (st_gen_pre s)
+          && Bool.eqb (st_notfound s) (Z.eqb (st_gen_pre s) (-1)))
+  else None.
+
 Definition C17_step_ok (s : step) : bool :=
+  match C17_special_ok s with Some b => b | None =>
   if st_known s then
     calls_eqb (st_calls s) [(st_table s, st_method s, st_args s)]
     && Bool.eqb (st_mgr_err s) (st_eng_err s) && String.eqb (st_mgr_res s) (st_eng_res s)
     && negb (st_notfound s && negb (st_eng_err s))
     && Bool.eqb (st_present s) (negb (closes (st_method s) && negb (st_eng_err s)))
   else
-    calls_eqb (st_calls s) [] && st_notfound s && negb (st_present s).
+    calls_eqb (st_calls s) [] && st_notfound s && negb (st_present s)
+  end.
 
 Definition C17_ok (tr : list step) : bool := forallb C17_step_ok tr.
